@@ -46,6 +46,8 @@ type server struct {
 	warm  genset
 	cold  genset
 	lds   *core.ConfigGeneratorImpl
+	// addresses of the east-west gateways of the world (for attributing differences, explain.go)
+	gatewayAddrs map[string]bool
 }
 
 func waitIdle(ds *xds.DiscoveryServer) {
@@ -71,7 +73,10 @@ func startServer(opts xdsfake.FakeOptions, shards func(*model.EndpointIndex)) *s
 		vh.Abort("xDS caching is disabled by the environment")
 	}
 	f := vh.NewF()
-	s := &server{f: f}
+	s := &server{f: f, gatewayAddrs: map[string]bool{}}
+	for _, g := range opts.Gateways {
+		s.gatewayAddrs[g.Addr] = true
+	}
 	ok := false
 	defer func() {
 		if !ok {
